@@ -76,7 +76,7 @@ def rebuilds(repo, quick_classes=CLASSES):
                 for (o, a, v, node, fn, seq) in ev.stores:
                     if o == e.result and fn in chain:
                         # explicit store after construction: the merged (phi) value at exit
-                        vals[a] = ev.heap.get((o, a), v)
+                        vals[a] = ev.exit_value(o, a, vals.get(a) if a in vals else T.atom("<constructor default>")) if len(ev.returns) > 1 else ev.heap.get((o, a), v)
                 out.append(Rebuild(C, m, R, e.result, vals, splat, source_terms(m), ev, e.node, ret))
     return out
 
